@@ -183,6 +183,29 @@ def check_case(ctx, case):
         if not veq(v['values'], docs, loose=True):
             return res.violate('roundtrip', 'bkl reads back different documents from its own %s output' % f, docs=docs, text=out_bytes(rs[n + 1 + k]).decode('utf-8', 'replace'), back=v['values'])
         res.ev('bkl_rereads')
+    if case.get('i', 0) % 3 == 0 and isinstance(docs[0], dict) and 'zz_late' not in docs[0]:
+        # Output after a later layer landed in an existing document: the bytes must decode to what OutputDocuments returns NOW
+        ops3 = [{'op': 'merge_doc', 'id': 'd%d' % i, 'data': x, 'parser': 40} for i, x in enumerate(docs)]
+        ops3 += [{'op': 'output', 'format': wsel, 'parser': 40},
+                 {'op': 'merge_doc', 'id': 'late', 'parents': ['d0'], 'data': {'zz_late': 'added'}, 'parser': 40},
+                 {'op': 'output', 'format': wsel, 'parser': 40}, {'op': 'output_docs', 'parser': 40}]
+        resp3 = ctx.call(ops3, res)
+        if resp3 is None:
+            return res.violate('crash', 'worker died (output after a second merge)', docs=docs)
+        o2, v2 = resp3['results'][-2], resp3['results'][-1]
+        if any(r.get('panic') or r['err'] is not None for r in resp3['results']):
+            return res.violate('roundtrip', 'output after a second merge failed', docs=docs, errs=[r['err'] for r in resp3['results']])
+        want2 = [dict(docs[0], zz_late='added')] + list(docs[1:])
+        if not veq(v2['values'], want2):
+            return res.violate('roundtrip', 'evaluated documents after a second merge differ from the plain input plus the late key', docs=docs, got=v2['values'])
+        try:
+            back2 = ser.parse(wsel, out_bytes(o2).decode('utf-8'))
+        except Exception as e:
+            return res.violate('roundtrip', '%s output after a second merge does not parse: %s' % (wsel, e), docs=docs)
+        if not veq(back2, want2, loose=True):
+            return res.violate('roundtrip', '%s output produced after a later layer was merged does not decode to the documents OutputDocuments returns (stale bytes)' % wsel,
+                               docs=docs, text=out_bytes(o2).decode('utf-8', 'replace'), back=back2)
+        res.ev('outputs_after_second_merge')
     res.labels.add('docs:%d' % n)
     res.labels.add('toml:' + ('yes' if toml_possible else 'no'))
     return res
